@@ -274,8 +274,8 @@ def provenance(F, sc, p, v, depth=0):
                 return None, "map closure not found"
             import summ2
             ls = [o["text"] for o in summ2.summarize(F, cf, inline=lambda g, ev: False)["outcomes"]]
-            if not (len(ls) == 1 and (re.match(r"^#1 = <[^>]*schema::[\w:]+ as (Into|From)>::(into|from)\(\*?arg2\) => #1$", ls[0])
-                                      or re.match(r"^- => (into|from)::<[^()]*schema::[^()]*>\(\*?arg2\)$", ls[0]))):
+            if not (len(ls) == 1 and (re.match(r"^#1 = <[^<>]*(<[^<>]*>)?[^<>]* as (Into|From)>::(into|from)\(\*?arg2\) => #1$", ls[0])
+                                      or re.match(r"^- => (into|from)::<[^()]*>\(\*?arg2\)$", ls[0]))):
                 return None, "elements are mapped with %s, expected the element's own conversion |i| (*i).into()" % ls
         return provenance(F, sc, p, v[3][0], depth + 1)
     return None, "unrecognised value %s" % sym.show(v)
